@@ -375,6 +375,13 @@ class Library:
         return self.dict_get_symbolic(d, [key], '__getitem__')
 
     def setitem(self, obj, key, v):
+        if isinstance(obj, SOpaque) and obj.kind == 'dict' and sym.is_strlike(key):
+            from spec import wire
+            val = v.t if isinstance(v, SOpaque) and v.t is not None else self.st.fresh('stored_value', sym.ObjS)
+            obj.t = wire.dict_set(obj.t, self.st.str_term(key), val)
+            return
+        if isinstance(obj, dict) and sym.is_strlike(key) and not obj:
+            raise OutOfSubset('symbolic key stored into a concrete dict outside a loop cut')
         raise OutOfSubset('item store on %s' % type(obj).__name__)
 
     # ------------------------------------------------------------ symbolic receivers
@@ -410,6 +417,14 @@ class Library:
 
     def sym_method(self, obj, name, args, kwargs):
         st = self.st
+        if isinstance(obj, SOpaque) and obj.kind == 'dict' and name == 'items' and not args:
+            return SOpaque('items', obj.t, {'dict': obj})
+        if isinstance(obj, SOpaque) and obj.kind == 'list' and name == 'append' and len(args) == 1:
+            from spec import wire
+            v = args[0]
+            val = v.t if isinstance(v, SOpaque) and v.t is not None else st.fresh('appended_value', sym.ObjS)
+            obj.t = wire.list_snoc(obj.t, val)
+            return None
         if isinstance(obj, SStr):
             if name == 'encode':
                 enc = args[0] if args else kwargs.get('encoding', 'utf-8')
@@ -581,7 +596,8 @@ class Library:
     def other_binop(self, op, a, b):
         if isinstance(a, SFloat) or isinstance(b, SFloat):
             raise OutOfSubset('float arithmetic')
-        if isinstance(a, SOpaque) and a.kind == 'decimal' or isinstance(b, SOpaque) and b.kind == 'decimal':
+        if isinstance(a, SOpaque) and a.kind == 'decimal' or isinstance(b, SOpaque) and b.kind == 'decimal' \
+                or isinstance(a, decimal.Decimal) or isinstance(b, decimal.Decimal):
             return self.dec_binop(op, a, b)
         if (sym.is_intlike(a) or sym.is_strlike(a) or sym.is_byteslike(a) or a is None) and \
            (sym.is_intlike(b) or sym.is_strlike(b) or sym.is_byteslike(b) or b is None):
@@ -731,9 +747,27 @@ class Library:
                 return decimal.Decimal(*args)
             except Exception as exc:
                 raise Raised(type(exc), exc.args)
+        if len(args) == 1 and isinstance(args[0], (SInt, SBool)):
+            from spec import wire
+            return SOpaque('decimal', wire.decimal_of(I(args[0]), z3.IntVal(0)), {'unscaled': I(args[0]), 'scale': 0})
         raise OutOfSubset('Decimal(symbolic)')
 
     def dec_binop(self, op, a, b):
+        """A5: exact decimal arithmetic for the one shape the codec uses:
+        Decimal(n) * Decimal(10) ** -k  ==  the decimal with unscaled value n and k places
+        (exact under the default context for |n| < 10^28, k <= 255)."""
+        from spec import wire
+        if op is ast.Pow and isinstance(a, decimal.Decimal) and a == 10 and isinstance(b, (SInt,)):
+            k = z3.simplify(-b.t)
+            return SOpaque('decimal', None, {'pow10neg': k})
+        if op is ast.Mult:
+            for x, y in ((a, b), (b, a)):
+                if isinstance(x, SOpaque) and x.kind == 'decimal' and 'unscaled' in x.info and x.info.get('scale') == 0 \
+                        and isinstance(y, SOpaque) and y.kind == 'decimal' and 'pow10neg' in y.info:
+                    k = y.info['pow10neg']
+                    if not self.st.branch(z3.And(k >= 0, k <= 255), 'decimal:scale-0..255'):
+                        raise OutOfSubset('decimal scale outside 0..255')
+                    return SOpaque('decimal', wire.decimal_of(x.info['unscaled'], k))
         raise OutOfSubset('Decimal arithmetic')
 
     def dt_fromtimestamp(self, args, kwargs):
